@@ -1,0 +1,30 @@
+//go:build verif
+
+package rux
+
+// Read-only accessors used by the verification harness in /verif.
+// Compiled only with `-tags verif`; nothing here changes behaviour.
+
+// VerifCache returns the router's cache instance (nil when none was created).
+func (r *Router) VerifCache() *cachedRoutes { return r.cachedRoutes }
+
+// VerifSnapshot returns the cache keys and values in recency order (most recent
+// first) together with the list length, the map size and the capacity.
+// It takes no lock: callers use it only while no request is in flight.
+func (c *cachedRoutes) VerifSnapshot() (keys []string, vals []*Route, listLen, mapLen, size int) {
+	for e := c.list.Front(); e != nil; e = e.Next() {
+		n := e.Value.(*cacheNode)
+		keys = append(keys, n.Key)
+		vals = append(vals, n.Value)
+	}
+	return keys, vals, c.list.Len(), len(c.hashMap), c.size
+}
+
+// VerifParams returns the params stored in a cached route copy.
+func (r *Route) VerifParams() Params { return r.params }
+
+// VerifCursor returns the handler-chain cursor of the context.
+func (c *Context) VerifCursor() int { return int(c.index) }
+
+// VerifChainLen returns the length of the handler chain installed on the context.
+func (c *Context) VerifChainLen() int { return len(c.handlers) }
